@@ -54,7 +54,7 @@ def run(rep):
         rep.coverage.update({
             "evaluations": res["n"], "distinct_nontrivial": res["n"] - res["counts"].get("err", 0) // 2,
             "rule": "corpus statements, token/byte/structure mutants of them (truncate, delete, duplicate, swap, splice from a 230-word pool, drop a bracket partner, empty a range), "
-                    "every sequence of up to 1 (quick) / 2 (thorough) pool words behind 18 statement prefixes, deep nesting probes (20 KB quick / 1 MiB thorough); "
+                    "every sequence of up to 1 (quick) / 2 (thorough) pool words behind 18 statement prefixes, statements of the verification grammar (checks/gen_sql_grammar.py) as they are, mutated and truncated; literal substitution (a NUMBER/STRING token of a valid statement replaced by a boundary literal of its class); deep nesting probes (20 KB quick / 1 MiB thorough); "
                     "oracle: steps <= E_main + B*tokens with the constants the kernel accepted; distinct_nontrivial counts conservatively (accepted inputs plus half of the rejected ones)",
             "samples": res["samples"], "input_distribution": res["dist"], "status_counts": res["counts"],
             "max_steps_per_token_plus_16": round(res["max_ratio"], 2), "E_main": E, "B": B,
